@@ -69,21 +69,26 @@ def _suggest(sv, client, n):
 
 
 ACTIONS = ['complete_newest', 'complete_oldest_active', 'infeasible_newest', 'delete_newest', 'delete_oldest',
-           'add_completed', 'request', 'suggest_other_worker', 'nothing', 'delete_three_newest']
+           'add_completed', 'request', 'suggest_other_worker', 'nothing', 'delete_three_newest',
+           'infeasible_no_reason', 'add_nine_completed']
 
 
 def _act(sv, kind, model):
   """Applies one environment action to the service and to the model (dict id -> 'active'|'completed'|'requested')."""
   ids_active = sorted(i for i, s in model['trials'].items() if s == 'active')
   ids_all = sorted(model['trials'])
-  if kind in ('complete_newest', 'complete_oldest_active', 'infeasible_newest'):
+  if kind == 'add_nine_completed':        # ids reach two digits
+    for _ in range(9):
+      _act(sv, 'add_completed', model)
+    return
+  if kind in ('complete_newest', 'complete_oldest_active', 'infeasible_newest', 'infeasible_no_reason'):
     if not ids_active:
       return
     tid = ids_active[0] if kind == 'complete_oldest_active' else ids_active[-1]
     req = vs.CompleteTrialRequest(name=svc.trial_name(tid))
-    if kind == 'infeasible_newest':
+    if kind in ('infeasible_newest', 'infeasible_no_reason'):
       req.trial_infeasible = True
-      req.infeasible_reason = 'bad'
+      req.infeasible_reason = 'bad' if kind == 'infeasible_newest' else ''
     else:
       req.final_measurement.metrics.add(metric_id='m', value=1.0)
     sv.CompleteTrial(req)
@@ -116,21 +121,24 @@ def _act(sv, kind, model):
     _do_suggest(sv, 'v', 1, model)
 
 
-_Q1 = [0, 5, 3, 6, 8]      # quick tier: first two actions from complete_newest, add_completed, delete_newest, request, nothing
-_Q2 = [9, 5, 0, 3, 8]      # last two from delete_three_newest, add_completed, complete_newest, delete_newest, nothing
+# quick tier: first two actions from complete_newest, add_completed, delete_newest, request, nothing, infeasible without a
+# reason, nine completed trials added at once; last two from delete_three_newest, add_completed, complete_newest,
+# delete_newest, nothing
+_Q1 = [0, 5, 3, 6, 8, 10, 11]
+_Q2 = [9, 5, 0, 3, 8]
 
 
 def history_quick(a1: int, a2: int, a3: int, a4: int, n1: int, n2: int) -> bool:
   """
-  pre: 0 <= a1 <= 4 and 0 <= a2 <= 4 and 0 <= a3 <= 4 and 0 <= a4 <= 4 and 1 <= n1 <= 2 and 1 <= n2 <= 2
+  pre: 0 <= a1 <= 6 and 0 <= a2 <= 6 and 0 <= a3 <= 4 and 0 <= a4 <= 4 and 1 <= n1 <= 2 and 1 <= n2 <= 2
   post: _
   """
   import os
-  a1 = conc(a1, 0, 4)
+  a1 = conc(a1, 0, 6)
   sl = os.environ.get('VERIF_SLICE')
   if sl is not None and a1 != int(sl):
     return True
-  a2, a3, a4, n1, n2 = conc(a2, 0, 4), conc(a3, 0, 4), conc(a4, 0, 4), conc(n1, 1, 2), conc(n2, 1, 2)
+  a2, a3, a4, n1, n2 = conc(a2, 0, 6), conc(a3, 0, 4), conc(a4, 0, 4), conc(n1, 1, 2), conc(n2, 1, 2)
   return _history(_Q1[a1], _Q1[a2], _Q2[a3], _Q2[a4], n1, n2, (a1, a2, a3, a4, n1, n2))
 
 
@@ -163,15 +171,15 @@ def _do_suggest(sv, client, n, model):
 
 def history(a1: int, a2: int, a3: int, a4: int, n1: int, n2: int) -> bool:
   """
-  pre: 0 <= a1 <= 9 and 0 <= a2 <= 9 and 0 <= a3 <= 9 and 0 <= a4 <= 9 and 1 <= n1 <= 2 and 1 <= n2 <= 2
+  pre: 0 <= a1 <= 11 and 0 <= a2 <= 11 and 0 <= a3 <= 11 and 0 <= a4 <= 11 and 1 <= n1 <= 2 and 1 <= n2 <= 2
   post: _
   """
   import os
-  a1 = conc(a1, 0, 9)
+  a1 = conc(a1, 0, 11)
   sl = os.environ.get('VERIF_SLICE')
   if sl is not None and a1 != int(sl):
     return True
-  a2, a3, a4, n1, n2 = conc(a2, 0, 9), conc(a3, 0, 9), conc(a4, 0, 9), conc(n1, 1, 2), conc(n2, 1, 2)
+  a2, a3, a4, n1, n2 = conc(a2, 0, 11), conc(a3, 0, 11), conc(a4, 0, 11), conc(n1, 1, 2), conc(n2, 1, 2)
   return _history(a1, a2, a3, a4, n1, n2, (a1, a2, a3, a4, n1, n2))
 
 
